@@ -3,8 +3,8 @@
    Mirrors, parametric in the arithmetic (record [ops] of C11Model.v), with the OBJECTIVE AS AN ORACLE [f : vec -> A]
    and every RANDOM DRAW AS AN EXPLICIT ARGUMENT:
      * SimplexDownhill (include/shark/Algorithms/DirectSearch/SimplexDownhill.h), as coded:
-         init  : vertices start + e_j - 1/2 (1 - e_j), m_best.value = 1e100 (a VALUE, the parameter [big]),
-                 m_best.point is NOT reset (parameter [p0] = whatever the object held before)      -> [sd_init]
+         init  : vertices start + e_j - 1/2 (1 - e_j), m_best = vertex 0, then tracking (as repaired by d2acfe00)  -> [sd_init]
+                 ([old_sd_init]: the init before the repair, which compared vertex 0 with the literal 1e100 — regression witness only)
          step  : sort by value (operator< of SingleObjectiveResultSet; std::sort modelled as the stable insertion sort
                  [isort] of C11Model.v — libstdc++'s std::sort IS that insertion sort for <= 16 elements),
                  centroid of the dim best, reflection 2 x0 - w, expansion 3 x0 - 2 w, contraction x0/2 + w/2,
@@ -58,11 +58,20 @@ Definition sd_eval (f : pvec -> A) (p : pvec) : sol := (f p, p).
 Definition sd_vertex (start : pvec) (j : nat) : pvec :=
   map (fun is => if Nat.eqb (fst is) j then snd is + 1 else snd is + (0 - sd_half)) (combine (seq 0 (length start)) start).
 
-(* init(): [big] is the literal 1e100 assigned to m_best.value, [p0] the point m_best held before (init does not touch it) *)
-Definition sd_init (f : pvec -> A) (big : A) (p0 : pvec) (start : pvec) : sd_state :=
-  fold_left (fun st j => let v := sd_eval f (sd_vertex start j) in
-                         mkSd (sd_simplex st ++ [v]) (sd_track (sd_best st) v))
-            (seq 0 (S (length start))) (mkSd [] (big, p0)).
+(* init() as repaired (commit d2acfe00):  if (j == 0 || m_simplex[j].value < m_best.value) m_best = m_simplex[j];
+   vertex 0 is taken unconditionally, so the assignment m_best.value = 1e100 before the loop and the point m_best held before no
+   longer matter (they are not parameters of the model any more) *)
+Definition sd_init_step (f : pvec -> A) (start : pvec) (st : sd_state) (j : nat) : sd_state :=
+  let v := sd_eval f (sd_vertex start j) in mkSd (sd_simplex st ++ [v]) (sd_track (sd_best st) v).
+
+Definition sd_init (f : pvec -> A) (start : pvec) : sd_state :=
+  let v0 := sd_eval f (sd_vertex start 0%nat) in
+  fold_left (sd_init_step f start) (seq 1%nat (length start)) (mkSd [v0] v0).
+
+(* REGRESSION WITNESS ONLY — init() as it was BEFORE d2acfe00: every vertex (also vertex 0) was compared with the literal 1e100 [big]
+   stored in m_best.value, and m_best.point [p0] was left as the object held it (see C11_simplex_literal_witness) *)
+Definition old_sd_init (f : pvec -> A) (big : A) (p0 : pvec) (start : pvec) : sd_state :=
+  fold_left (sd_init_step f start) (seq 0 (S (length start))) (mkSd [] (big, p0)).
 
 (* reduction loop: for j = 1..dim: point = 0.5 * best.point + 0.5 * point; evaluate; track *)
 Fixpoint sd_shrink (f : pvec -> A) (bp : pvec) (rest : list sol) (b : sol) : list sol * sol :=
